@@ -822,6 +822,26 @@ theorem ref_sig8_debug_info_v5 (F : Forest) (dasz : Nat) (hdasz : dasz = 4 ∨ d
     hsplit hty hlast d hd hdx
 
 /--
+  ref_sig8_v5_after_any_history.  The two halves composed: on the encoded sections of a well-formed forest, after ANY
+  history `sigs` of signature lookups on the same `DWARFInfo` object (present, absent, repeated signatures), looking up
+  the signature of the DWARF 5 type unit `p` of `.debug_info` still returns the entry `d` at `cu_offset + type_offset`
+  of that unit — the exactness theorem `ref_sig8_debug_info_v5` carried through the cache by
+  `sig8_history_independent`.
+-/
+theorem ref_sig8_v5_after_any_history (F : Forest) (dasz : Nat) (hdasz : dasz = 4 ∨ dasz = 8)
+    (hwf : wfForestB genNames F = true)
+    (G : UnitCtx → Nat → R DieObs) (hG : ∀ U o, U.cuDieOffset ≤ o → G U o = getCachedDIE U o)
+    (pre post : List (Nat × UnitDesc)) (p : Nat × UnitDesc) (hsplit : placeInfo F 0 F.units = pre ++ p :: post)
+    (hty : p.2.isTypeV5 = true) (hlast : ∀ q ∈ post, q.2.isTypeV5 = true → q.2.id8 ≠ p.2.id8) (d : DieObs)
+    (hd : d ∈ flattenUnit genNames (p.2.cfg F.le) (unitRho F p.2) (unitRho F p.2) (infoDieOff F p.1 p.2) p.2.tree)
+    (hdx : d.offset = p.1 + p.2.typeOff) (sigs : List Int) :
+    (Model.SigCache.run (sigUnits (forestDInfo F dasz) (genBundles F.le dasz).S0)
+        (fun us s => dieBySig8 G us none s) Model.SigCache.St.init (sigs ++ [(p.2.id8 : Int)])).1.getLast?
+      = some (.ok (p.1, d)) := by
+  rw [sig8_history_independent, List.map_append, List.map_cons, List.map_nil, List.getLast?_concat,
+    ref_sig8_debug_info_v5 F dasz hdasz hwf G hG pre post p hsplit hty hlast d hd hdx]
+
+/--
   refs_info_exact.  Unit-relative and section-relative references at the level of whole sections, no hypothesis
   besides the forest's well-formedness: for EVERY entry `d` (null entries included) of every unit `p` of
   `.debug_info`,
